@@ -58,7 +58,8 @@ Lasts(p) == {TermE(tm) : tm \in Terminals} \cup {Ref(p.s[i][1], p.s[i][2], "cano
 HopForms(p) == IF p.n = 1 THEN {"canon"} ELSE {"canon", "pct", "frag"}
 PathGraphs == UNION {{Graph(p, last, f1) : last \in Lasts(p), f1 \in HopForms(p)} : p \in Paths}
 \* family V: forms only matter for the in-use check
-PathGraphsV == UNION {{Graph(p, last, f1) : last \in Lasts(p), f1 \in (HopForms(p) \ {"frag"})} : p \in Paths}
+LastsV(p) == {TermE(tm) : tm \in {"url", "map", "mapx", "nosvc", "docdeact", "extraq"}} \cup {Ref(p.s[i][1], p.s[i][2], "canon") : i \in 1..p.n}
+PathGraphsV == UNION {{Graph(p, last, f1) : last \in LastsV(p), f1 \in (HopForms(p) \ {"frag"})} : p \in Paths}
 
 \* ------------------------------------------------------------------ family U
 DocA(e1, e2) == Doc("active", [t \in Types |-> IF t = "t1" THEN e1 ELSE IF t = "t2" THEN e2 ELSE NoSvc])
@@ -88,7 +89,8 @@ MCInitDocs == CASE Fam = "R" -> PathGraphs [] Fam = "V" -> PathGraphsV [] Fam = 
 MCNetDocs(d) == IF Fam = "U" THEN UNet(d) ELSE {}
 QForms == {"canon", "pct", "frag"} \cup BadForms
 MCResolveQueries ==
-    CASE Fam = "R" -> {[d |-> "A", t |-> "t1", f |-> f, max |-> m] : f \in QForms, m \in Depths}
+    CASE Fam = "R" -> {[d |-> "A", t |-> "t1", f |-> "canon", max |-> m] : m \in Depths}
+                      \cup {[d |-> "A", t |-> "t1", f |-> f, max |-> DefaultDepth] : f \in QForms}
       [] Fam = "U" -> {[d |-> d, t |-> "t1", f |-> "canon", max |-> m] : d \in {"A", "C"}, m \in Depths}
       [] Fam = "S" -> {[d |-> d, t |-> "t1", f |-> "canon", max |-> DefaultDepth] : d \in {"A", "B"}}
       [] OTHER -> {}
@@ -118,7 +120,9 @@ Quiet == rs.pc # "run" /\ \A p \in Procs : ops[p].pc # "checked"
 \* R: one line per graph with the expectation for every query
 EmitR == (Hist /\ Fam = "R" /\ nops = 0) =>
     PrintT(ToJson([fam |-> "R", docs |-> DocsJ(docs),
-                   exp |-> {[q |-> q, r |-> ResolveQ(docs, q), reads |-> Reads(docs, q.d, QueryType(q.t, q.f), 0, q.max, {})] : q \in ResolveQueries}]))
+                   exp |-> {LET r == ResolveQ(docs, q) IN
+                            [f |-> q.f, max |-> q.max, v |-> r.v, at |-> IF r.v = "ok" THEN <<r.d, r.t>> ELSE <<>>,
+                             reads |-> Reads(docs, q.d, QueryType(q.t, q.f), 0, q.max, {})] : q \in ResolveQueries}]))
 \* U, V, S: one witness behaviour per distinct terminal state
 Emit == (Hist /\ Fam # "R" /\ nops = MaxOps /\ Quiet) =>
     PrintT(ToJson([fam |-> Fam, docs |-> DocsJ(docs), hist |-> hist,
